@@ -112,8 +112,12 @@ func c03RulesBase(tier string) []Rule {
 		DOM{ID: "C03.VIEW1d", Fn: "(*state.StateNode).Capacity", Sink: `^store &local<\[2\]corev1\.ResourceList>\[0\] = \$0\.NodeClaim\.Status\.Capacity$`, Gates: gates(
 			G(`+^\$0\.Node == nil$`),
 		), Note: "the NodeClaim's capacity alone only while there is no Node"},
-		POST{ID: "C03.VIEW1b", Fn: "(*state.StateNode).Capacity", FromLit: `+^utils/resources\.IsZero\(lo\.Assign\[.*\]\(&local<\[1\]corev1\.ResourceList>\[:\]\)\[next\(range\(\$0\.NodeClaim\.Status\.Capacity\)\)#1\]\)$`,
-			Must: []string{`^mapupdate lo\.Assign\[.*\]\(&local<\[1\]corev1\.ResourceList>\[:\]\)\[next\(range\(\$0\.NodeClaim\.Status\.Capacity\)\)#1\] = next\(range\(\$0\.NodeClaim\.Status\.Capacity\)\)#2$`}},
+		core.Custom{ID: "C03.VIEW1b", Kind: "POST", Run: func(w *core.World, id string) []core.Result {
+			return postInHelpers(w, "(*state.StateNode).Capacity", func(fnName string) POST {
+				return POST{ID: id, Fn: fnName, FromLit: `+^utils/resources\.IsZero\(lo\.Assign\[.*\]\(&local<\[1\]corev1\.ResourceList>\[:\]\)\[next\(range\(\$0\.NodeClaim\.Status\.Capacity\)\)#1\]\)$`,
+					Must: []string{`^mapupdate lo\.Assign\[.*\]\(&local<\[1\]corev1\.ResourceList>\[:\]\)\[next\(range\(\$0\.NodeClaim\.Status\.Capacity\)\)#1\] = next\(range\(\$0\.NodeClaim\.Status\.Capacity\)\)#2$`}}
+			})
+		}},
 		core.Custom{ID: "C03.CMP1", Kind: "ORD", Run: c03FilterCmp},
 		core.Custom{ID: "C03.SYM3", Kind: "SYM", Run: c03NodeKey},
 
